@@ -29,6 +29,11 @@ pub mod sim {
         pub err: SimReceiver<(u32, u32), TotalOrder, ExactlyOnce>,
     }
 
+    /// SELF-TEST: HV_MUTANT=<n> swaps in a mutated copy of a helper (see `selftest_mutants`).
+    pub fn mutant() -> u32 {
+        std::env::var("HV_MUTANT").ok().and_then(|s| s.parse().ok()).unwrap_or(0)
+    }
+
     /// Adds the helper instances for all `1 <= min <= max <= max_max` to `flow`.
     pub fn build<'a>(flow: &mut FlowBuilder<'a>, max_max: usize) -> (Vec<CqPorts>, Vec<CqrPorts>) {
         let node = flow.process::<()>();
@@ -37,7 +42,10 @@ pub mod sim {
         for max in 1..=max_max {
             for min in 1..=max {
                 let (input, stream) = node.sim_input::<CqResp, TotalOrder, ExactlyOnce>();
-                let (succ, err) = hydro_std::quorum::collect_quorum(stream, min, max);
+                let (succ, err) = match mutant() {
+                    m @ 1..=2 => crate::selftest_mutants::collect_quorum_mut(m, stream, min, max),
+                    _ => hydro_std::quorum::collect_quorum(stream, min, max),
+                };
                 cq.push(CqPorts {
                     min,
                     max,
@@ -46,7 +54,12 @@ pub mod sim {
                     err: err.sim_output(),
                 });
                 let (input, stream) = node.sim_input::<CqrResp, TotalOrder, ExactlyOnce>();
-                let (succ, err) = hydro_std::quorum::collect_quorum_with_response(stream, min, max);
+                let (succ, err) = match mutant() {
+                    m @ 3..=4 => {
+                        crate::selftest_mutants::collect_quorum_with_response_mut(m, stream, min, max)
+                    }
+                    _ => hydro_std::quorum::collect_quorum_with_response(stream, min, max),
+                };
                 cqr.push(CqrPorts {
                     min,
                     max,
@@ -80,8 +93,11 @@ pub mod sim {
         let metadata = metadata_processing
             .batch_atomic(&process.tick(), nondet!(/** harness: any batching of the metadata */))
             .weaken_ordering();
-        let joined =
-            hydro_std::request_response::join_responses(responses.weaken_ordering(), metadata);
+        let joined = if mutant() == 5 {
+            crate::selftest_mutants::join_responses_mut(responses.weaken_ordering(), metadata)
+        } else {
+            hydro_std::request_response::join_responses(responses.weaken_ordering(), metadata)
+        };
         JoinPorts {
             resp,
             meta,
